@@ -1541,7 +1541,73 @@ func (c *Ctx) execFor(st *State, x *ast.ForStmt, label string) outcome {
 	if x.Post != nil {
 		lp.post = func(s *State) { c.exec(s, x.Post, "") }
 	}
+	if iv, sv, ok := c.countingLoop(x); ok {
+		// `for i := 0; i < len(s); i++` with neither i nor s assigned in the body: 0 <= i <= len(s) holds at the loop
+		// head without having to be written down (the same bounds a range loop gets automatically)
+		lp.auto = func(s *State) []Term {
+			iv2, ok1 := s.vars[iv].(Scalar)
+			sl, ok2 := s.vars[sv].(Slice)
+			if !ok1 || !ok2 {
+				return nil
+			}
+			return []Term{c.ile(c.idx(0), iv2.T), c.ile(iv2.T, sl.Len)}
+		}
+	}
 	return c.execLoop(st, lp)
+}
+
+// countingLoop recognises `for i := 0; i < len(s); i++ { body }` where s is a slice-typed local or parameter and the
+// body assigns neither i nor s.
+func (c *Ctx) countingLoop(x *ast.ForStmt) (types.Object, types.Object, bool) {
+	if c.mode != ModeInt {
+		return nil, nil, false
+	}
+	init, ok := x.Init.(*ast.AssignStmt)
+	if !ok || init.Tok != token.DEFINE || len(init.Lhs) != 1 || len(init.Rhs) != 1 {
+		return nil, nil, false
+	}
+	iid, ok := init.Lhs[0].(*ast.Ident)
+	lit, ok2 := init.Rhs[0].(*ast.BasicLit)
+	if !ok || !ok2 || lit.Value != "0" {
+		return nil, nil, false
+	}
+	cond, ok := x.Cond.(*ast.BinaryExpr)
+	if !ok || cond.Op != token.LSS {
+		return nil, nil, false
+	}
+	cid, ok := ast.Unparen(cond.X).(*ast.Ident)
+	call, ok2 := ast.Unparen(cond.Y).(*ast.CallExpr)
+	if !ok || !ok2 || cid.Name != iid.Name || len(call.Args) != 1 {
+		return nil, nil, false
+	}
+	fn, ok := call.Fun.(*ast.Ident)
+	sid, ok2 := ast.Unparen(call.Args[0]).(*ast.Ident)
+	if !ok || !ok2 || fn.Name != "len" {
+		return nil, nil, false
+	}
+	if _, isB := c.pkg.info.ObjectOf(fn).(*types.Builtin); !isB {
+		return nil, nil, false
+	}
+	post, ok := x.Post.(*ast.IncDecStmt)
+	if !ok || post.Tok != token.INC {
+		return nil, nil, false
+	}
+	pid, ok := ast.Unparen(post.X).(*ast.Ident)
+	if !ok || pid.Name != iid.Name {
+		return nil, nil, false
+	}
+	iobj, sobj := c.pkg.info.ObjectOf(iid), c.pkg.info.ObjectOf(sid)
+	if iobj == nil || sobj == nil || c.pkg.info.ObjectOf(cid) != iobj || c.pkg.info.ObjectOf(pid) != iobj {
+		return nil, nil, false
+	}
+	if _, isSl := sobj.Type().Underlying().(*types.Slice); !isSl {
+		return nil, nil, false
+	}
+	li := c.analyseLoop(x.Body)
+	if li.modVars[iobj] || li.modVars[sobj] || c.boxedVars[iobj] || c.boxedVars[sobj] {
+		return nil, nil, false
+	}
+	return iobj, sobj, true
 }
 
 func (c *Ctx) execRange(st *State, x *ast.RangeStmt, label string) outcome {
